@@ -57,7 +57,33 @@ Definition mismatch (c : case) : bool :=
   let cmp chk show o := match compare_run (with_mode (c_world c) chk show) (c_name c) (c_def c) o with CmpDiff => true | _ => false end in
   cmp true false (c_check c) || cmp true true (c_checkshow c) || cmp false false (c_open c).
 
-Definition known (c : case) : bool := false.
+(* known finding C06-tojson-merged: keys() stops at an unknown base, so while checking, fn::toJSON of an object merged over a
+   provider output (or undisclosed ciphertext) serialises the partial object as if it were complete: check invents a value
+   (theorem C06_check_approx_open_refuted).  Class: some environment of the world applies fn::toJSON, some environment
+   has a merged import, and some environment uses fn::open or a ciphertext secret. *)
+Fixpoint expr_any (p : expr -> bool) (fuel : nat) (e : expr) : bool :=
+  match fuel with
+  | O => false
+  | S f =>
+    p e || match e with
+           | EArr l => existsb (expr_any p f) l
+           | EObj kvs => existsb (fun kv => expr_any p f (snd kv)) kvs
+           | EJoin a b => expr_any p f a || expr_any p f b
+           | EToJSON a | EFromJSON a | EToString a | EToB64 a | EFromB64 a => expr_any p f a
+           | EOpen _ a => expr_any p f a
+           | _ => false
+           end
+  end.
+
+Definition defs_of (c : case) : list envdef :=
+  c_def c :: concat (map (fun ne => match snd ne with LoadOk d => [d] | _ => [] end) (w_envs (c_world c))).
+
+Definition known (c : case) : bool :=
+  let ds := defs_of c in
+  let any p := existsb (fun d => existsb (fun kv => expr_any p wire_fuel (snd kv)) (ed_values d)) ds in
+  any (fun e => match e with EToJSON _ => true | _ => false end)
+  && existsb (fun d => existsb (fun im => snd im) (ed_imports d)) ds
+  && any (fun e => match e with EOpen _ _ | ESecretCipher _ => true | _ => false end).
 Definition spec_fail_new (c : case) : bool := spec_fail c && negb (known c).
 Definition spec_fail_known (c : case) : bool := spec_fail c && known c.
 
